@@ -21,6 +21,7 @@ type Req struct {
 	Stdin   []byte   `json:"stdin,omitempty"`
 	UseFile bool     `json:"use_file,omitempty"`
 	UseOut  bool     `json:"use_out,omitempty"`
+	PreOut  []byte   `json:"pre_out,omitempty"`
 
 	Optimize   bool     `json:"optimize,omitempty"`
 	BasicLatin bool     `json:"basic_latin,omitempty"`
